@@ -282,6 +282,34 @@ Example C11_corner_value_binary64 :
   predict_submodel FNum corner_cf corner_tcf 95%float = Some ((-5)%float, 0%float, (-25)%float).
 Proof. vm_compute. reflexivity. Qed.
 
+(* ------------------------------------------------------------------ the rounding gap made concrete (finding C11-F2) *)
+
+(* Over the reals get_smooth_coeffs keeps the order (C11_smooth_coeffs_order); when the two smoothing fractions add
+   up to more than one the shifted balance points MEET.  In binary64 they are computed independently and can
+   cross by one ulp; full_model then swaps the two sides, slopes included.  Same model text, binary64 instance:
+   hdd_bp 12.106478702938013, pct_hdd_k 0.4126133326537498, cdd_bp 16.12505849339802, pct_cdd_k 0.6380378622932393 *)
+Definition cross_hb : float := (0x1.836846065adb4p+3)%float.
+Definition cross_ph : float := (0x1.a6841c0690d18p-2)%float.
+Definition cross_cb : float := (0x1.02003d55b3b45p+4)%float.
+Definition cross_pc : float := (0x1.46ace61051849p-1)%float.
+Example C11_rounding_cross_binary64 :
+  let '(hbp', _, cbp', _) := get_smooth_coeffs FNum cross_hb cross_ph cross_cb cross_pc in
+  PrimFloat.ltb cbp' hbp' = true.
+Proof. vm_compute. reflexivity. Qed.
+
+(* heating slope 1.75, cooling slope 5.25, base load 58: at -60 F the heating load should be
+   1.75 * (12.1 + 72) < 130 even without smoothing; the swapped kernel returns more than 370 *)
+Definition cross_c : coeffs FNum :=
+  Build_coeffs FNum HddTiddCddSmooth 58%float (Some cross_hb) (Some 1.75%float) (Some cross_ph)
+                                              (Some cross_cb) (Some 5.25%float) (Some cross_pc).
+Definition cross_tc : tconstr FNum := Build_tconstr FNum 10%float 84%float 12%float 83%float.
+Example C11_rounding_cross_swaps_slopes :
+  match predict_submodel FNum cross_c cross_tc (-60)%float with
+  | Some (_, h, _) => PrimFloat.ltb 370%float h = true
+  | None => False
+  end.
+Proof. vm_compute. reflexivity. Qed.
+
 (* ------------------------------------------------------------------ non-vacuity *)
 
 (* a smoothed two-sided document strictly inside the fitted range satisfies both hypotheses *)
